@@ -128,6 +128,12 @@ func newSynWorld(c *mon.Case, p synP) *synWorld {
 		if strings.HasPrefix(m, "error") {
 			return nil, faultOf(m), true
 		}
+		if m == "slow-error-once" {
+			// this one (slow) request fails; every request issued from now on is served
+			sw.setMode("ok")
+			c.Count("slow_requests_failed_once", 1)
+			return nil, errGetter, true
+		}
 		out := chain.Range(from.Height()+1, min(to, sw.tipNow()+1))
 		if len(out) == 0 {
 			return nil, errGetter, true
@@ -494,6 +500,16 @@ func TestC07(t *testing.T) {
 		}
 		mon.Emit(r, "script", p, "script")
 	}
+	// targeted: a head is learned while a range request is in flight that then fails; every request issued after
+	// that head was learned is served, and no further head arrives: the target still has to be reached
+	for _, lag := range []int{5, 70} {
+		for _, dh := range []int{-1, -2} {
+			for _, ms := range []int{100, 300, 600} {
+				mon.Emit(r, "script", synP{Store: 10, Lag: lag, Steps: []synStep{{Op: "getter", Mode: "ok"}, {Op: "quiesce"}, {Op: "getter", Mode: "slow-error-once"}, {Op: "sleep", Ms: 3500},
+					{Op: "gossip", Kind: "canonical", DH: dh}, {Op: "sleep", Ms: ms}, {Op: "gossip", Kind: "canonical"}}}, "script")
+			}
+		}
+	}
 	r.Finish()
 }
 
@@ -575,7 +591,13 @@ func c07Run(c *mon.Case, p synP) {
 		if lastHead >= 0 && servingSince >= 0 && servingSince < lastHead {
 			sw.settle()
 			if h, err := sw.st.Head(context.Background()); err != nil || h.Height() < obs.maxVerified {
-				c.Violation("head-learned-during-sync-not-synced", fmt.Sprintf("highest verified head %d, store head %v (%v) at quiescence although the getter has been serving (since step %d) before that head was learned (step %d); state %+v", obs.maxVerified, h, err, servingSince, lastHead, sw.syn.State()), map[string]any{"getter_calls_tail": tailCalls(sw.g.Calls(""), 12), "now": time.Since(sw.epoch).String()})
+				sig := "head-learned-during-sync-not-synced"
+				for _, st := range p.Steps {
+					if st.Mode == "slow-error-once" {
+						sig = "head-learned-during-failing-attempt-not-synced"
+					}
+				}
+				c.Violation(sig, fmt.Sprintf("highest verified head %d, store head %v (%v) at quiescence although the getter has been serving (since step %d) before that head was learned (step %d); state %+v", obs.maxVerified, h, err, servingSince, lastHead, sw.syn.State()), map[string]any{"getter_calls_tail": tailCalls(sw.g.Calls(""), 12), "now": time.Since(sw.epoch).String()})
 			}
 			c.Count("checked_without_extra_head", 1)
 		}
